@@ -37,6 +37,10 @@ func scenarioMix(enc *json.Encoder, idx int, rng *rand.Rand, n int) map[string]a
 		if rng.Intn(5) == 0 {
 			o.requests = 0 // handshake only, then close
 		}
+		o.reset = rng.Intn(3) == 0 // every third client leaves with a TCP reset instead of close_notify + FIN
+		if o.abortAt == 0 && rng.Intn(4) == 0 {
+			o.partial, o.unread = rng.Intn(2) == 0, rng.Intn(2) == 0
+		}
 		wg.Add(1)
 		go func() {
 			defer wg.Done()
@@ -49,6 +53,31 @@ func scenarioMix(enc *json.Encoder, idx int, rng *rand.Rand, n int) map[string]a
 	wg.Wait()
 	if !s.waitExited(6 * time.Second) {
 		s.note("connections still open 6s after all clients left")
+	}
+	return s.finish(enc, false)
+}
+
+// ---------------------------------------------------------------- family R: every way of leaving, one connection kind x stage x manner each (C11)
+
+func scenarioLeave(enc *json.Encoder, idx int, reset bool) map[string]any {
+	name := map[bool]string{false: "close", true: "reset"}[reset]
+	s := startScenario(fmt.Sprintf("leave-%s-%d", name, idx), "leave", stack.Options{HandshakeTimeout: 2 * time.Second, IdleTimeout: 30 * time.Second})
+	var wg sync.WaitGroup
+	for _, k := range []string{"h1", "noalpn", "h2"} {
+		for _, o := range []clientOpts{{requests: 0}, {requests: 1}, {requests: 2}, {requests: 1, partial: true}, {requests: 1, unread: true}, {requests: 0, partial: true}} {
+			k, o := k, o
+			o.reset = reset
+			wg.Add(1)
+			go func() {
+				defer wg.Done()
+				s.client(k, o)
+			}()
+		}
+	}
+	wg.Wait()
+	// nothing but the client's departure can release these connections (timeouts are far away)
+	if !s.waitExited(5 * time.Second) {
+		s.note("connections still open 5s after every client left by " + name)
 	}
 	return s.finish(enc, false)
 }
@@ -411,6 +440,7 @@ func runAll(tracePath, reportPath string) {
 	for i := 0; i < nmix; i++ {
 		report = append(report, scenarioMix(enc, i, rng, nconn))
 	}
+	report = append(report, scenarioLeave(enc, 0, false), scenarioLeave(enc, 1, true))
 	report = append(report, scenarioTimeouts(enc, 0))
 	for i, v := range []string{"none", "early", "idle", "handshaking", "mixed", "repeat", "handoff"} {
 		report = append(report, scenarioShutdown(enc, i, v))
